@@ -310,7 +310,15 @@ PunchAll(s, ranges) ==
   ELSE LET q == CHOOSE x \in ranges : TRUE IN
        PunchAll([ZeroRange(s, q[1], q[2]) EXCEPT !.io = Append(s.io, [k |-> "punch", at |-> q[1], len |-> q[2]])], ranges \ {q})
 
+\* "XPF" is not a deviation of the code: a hypothetical order (punch first, flush afterwards) used only to show that the crash
+\* invariants of RawCrash.tla are not vacuous
 Compact(s, D) ==
+  IF "XPF" \in D THEN
+    LET tails0 == {<<s.slots[i].start + Ceil(s.slots[i].len), s.slots[i].res - Ceil(s.slots[i].len)>> :
+                     i \in {j \in Live(s) : Ceil(s.slots[j].len) < s.slots[j].res}}
+        p == PunchAll(s, tails0 \cup HoleSet(s))
+    IN [Flush(p, D \ {"XPF"}) EXCEPT !.res = "ok"]
+  ELSE
   LET s1 == Flush(s, D)
       tails == {<<s1.slots[i].start + Ceil(s1.slots[i].len), s1.slots[i].res - Ceil(s1.slots[i].len)>> :
                   i \in {j \in Live(s1) : Ceil(s1.slots[j].len) < s1.slots[j].res}}
